@@ -7,7 +7,7 @@ import shapely
 
 import emsarray  # noqa: F401
 from emsarray.exceptions import InvalidPolygonWarning
-from coqio import coq_eval_sharded
+from coqio import Some, coq_eval_sharded, to_coq
 import gen
 import polymodel as pm
 from hutil import attempt
@@ -67,6 +67,49 @@ def same_ring(ip, mp):
     return len(ip) == len(mp) and all(close(a[0], b[0]) and close(a[1], b[1]) for a, b in zip(ip, mp))
 
 
+def bounds_name_leg(ctx):
+    """utils.get_bounds_name against Model.BoundsName, and the model's reading of decode_coords='all' against what xarray does"""
+    import os
+    import tempfile
+    import xarray
+    from emsarray import utils
+    names = {1: 'lat_bnds', 2: 'b', 3: 'other bounds'}
+    combos = [(a, e) for a in (None, 1, 2, 3) for e in (None, 1, 2, 3)]
+    exprs = [f'(get_bounds_name {{| attr_bounds := {to_coq(None if a is None else Some(a))}; enc_bounds := {to_coq(None if e is None else Some(e))} |}})'
+             for a, e in combos]
+    model = coq_eval_sharded(['Model.BoundsName'], exprs, shard=16)
+    ctx.leg('bounds name lookups', len(exprs))
+    back = {v: k for k, v in names.items()}
+    for (a, e), m in zip(combos, model):
+        var = xarray.Variable(['x'], numpy.arange(3.0), {} if a is None else {'bounds': names[a]})
+        if e is not None:
+            var.encoding['bounds'] = names[e]
+        case = {'attrs bounds': None if a is None else names[a], 'encoding bounds': None if e is None else names[e]}
+        ctx.case(('bounds name', a, e), True)
+        got = [utils.get_bounds_name(var), utils.get_bounds_name(xarray.Dataset({'v': var})['v'])]
+        want = None if m is None else names[m.v]
+        if got != [want, want]:
+            ctx.report('correspondence', f'utils.get_bounds_name gives {got}, model BoundsName.get_bounds_name {want}', case, found_input=False)
+    # the model's decode_all: a file whose coordinate names its bounds, opened with decode_coords='all'
+    tmp = tempfile.mkdtemp(prefix='c06_bn_', dir=os.environ.get('VERIF_WORK', '/verif/work'))
+    try:
+        ds = xarray.Dataset({'lat_bnds': (('lat', 'nv'), numpy.array([[0.0, 1.0], [1.0, 2.5]]))},
+                            coords={'lat': ('lat', numpy.array([0.5, 1.5]), {'units': 'degrees_north', 'bounds': 'lat_bnds'})})
+        path = os.path.join(tmp, 'b.nc')
+        with warnings.catch_warnings():
+            warnings.simplefilter('ignore')
+            ds.to_netcdf(path)
+            with xarray.open_dataset(path, decode_coords='all') as o:
+                where = ('bounds' in o['lat'].attrs, o['lat'].encoding.get('bounds'), 'lat_bnds' in o.coords)
+        ctx.count(f"decode_coords='all' moves the bounds attribute to the encoding:{where == (False, 'lat_bnds', True)}")
+        if where[0] is False and where[1] != 'lat_bnds':
+            ctx.report('correspondence', f"xarray's decode_coords='all' leaves the bounds name neither in the attributes nor in the "
+                       f'encoding ({where}): the model BoundsName.decode_all no longer describes it', {'file': 'b.nc'}, found_input=False)
+    finally:
+        import shutil
+        shutil.rmtree(tmp, ignore_errors=True)
+
+
 def run(ctx):
     rng = ctx.rng
     quick = ctx.tier == 'quick'
@@ -76,6 +119,7 @@ def run(ctx):
                 'NaN / _FillValue / no fill, transposed), each also with its coordinate or bounds variables moved '
                 'between xarray coordinates and plain variables. A case is (dataset, variant); non-trivial = the grid has '
                 '>= 2 cells; distinct by the dataset label + variant')
+    bounds_name_leg(ctx)
     n_ds = 50 if quick else 500
     fixed = [('cf1d', dict(ny=2, nx=2, bounds=False)), ('cf1d', dict(ny=3, nx=5, bounds=True)),
              ('cf2d', dict(ny=4, nx=4, bounds=False, holes='interior')), ('cf2d', dict(ny=3, nx=4, bounds=False, holes='river')),
